@@ -2,6 +2,7 @@ package goatlang
 
 import (
 	"fmt"
+	"sort"
 	"strings"
 
 	"golang.org/x/exp/maps"
@@ -496,6 +497,7 @@ func (v Value) opMod(b Value) Value {
 		return Value{t: untypedInt, num: float64(int(v.num) % int(b.num))}
 	}
 }
+
 // shiftType: a shift has the type of its left operand; the count may be of any integer type (an untyped left
 // operand still takes the type of a typed count, as before)
 func shiftType(v, b Value) Type {
@@ -926,9 +928,20 @@ func (m *stringMap) Range() func() (Value, Value, bool) {
 	}
 }
 
+// sortedKeys lists the keys of a map in the order fmt prints them: ascending.
+func sortedKeys[K string | float64, V any](data map[K]V) []K {
+	keys := make([]K, 0, len(data))
+	for k := range data {
+		keys = append(keys, k)
+	}
+	sort.Slice(keys, func(i, j int) bool { return keys[i] < keys[j] || (keys[i] != keys[i] && keys[j] == keys[j]) })
+	return keys
+}
+
 func (m *stringMap) String() string {
 	var p []string
-	for k, v := range m.data {
+	for _, k := range sortedKeys(m.data) {
+		v := m.data[k]
 		p = append(p, k+":"+v.safeStr([]any{m}))
 	}
 	return "map[" + strings.Join(p, " ") + "]"
@@ -940,7 +953,8 @@ func (m *stringMap) SafeStr(path []any) string {
 	}
 	path = append(path, m)
 	var p []string
-	for k, v := range m.data {
+	for _, k := range sortedKeys(m.data) {
+		v := m.data[k]
 		if !v.t.isSafeStr() {
 			return "map[...]"
 		}
@@ -1017,7 +1031,8 @@ func (m *numericMap) Range() func() (Value, Value, bool) {
 
 func (m *numericMap) String() string {
 	var p []string
-	for k, v := range m.data {
+	for _, k := range sortedKeys(m.data) {
+		v := m.data[k]
 		p = append(p, Value{t: m.keyType, num: k}.String()+":"+v.safeStr([]any{m}))
 	}
 	return "map[" + strings.Join(p, " ") + "]"
@@ -1029,7 +1044,8 @@ func (m *numericMap) SafeStr(path []any) string {
 	}
 	path = append(path, m)
 	var p []string
-	for k, v := range m.data {
+	for _, k := range sortedKeys(m.data) {
+		v := m.data[k]
 		if !v.t.isSafeStr() {
 			return "map[...]"
 		}
